@@ -31,6 +31,10 @@ func hC13Module() (*Module, *Func) {
 	sp := types.NewPointer(st)
 	sp.AddrSpace = 3
 	m.NewGlobalDef("ptr", constant.NewNull(sp))
+	// a global and a function whose address space was assigned after their
+	// pointer type had been computed once, both used as operands
+	late := m.NewGlobalDef("late", constant.NewInt(types.I32, 3))
+	lf := m.NewFunc("latefn", types.Void)
 	callee := m.NewFunc("callee", types.I32)
 	f := m.NewFunc(hLetter("f"), types.I32, NewParam("", types.I32))
 	b := f.NewBlock("")
@@ -42,12 +46,22 @@ func hC13Module() (*Module, *Func) {
 	slot.AddrSpace = 5
 	b.NewLoad(types.I32, slot).SetName("ld")
 	c := b.NewCall(callee)
+	b.NewStore(constant.NewInt(types.I32, 1), late) // prints the (stale) type of @late
+	b.NewCall(lf)
 	b2 := f.NewBlock("")
 	b.NewBr(b2)
 	b2.NewRet(b2.NewAdd(v, c))
-	md := &metadata.Tuple{MetadataID: -1}
-	m.MetadataDefs = append(m.MetadataDefs, md)
-	m.NamedMetadataDefs["n"] = &metadata.NamedDef{Name: "n", Nodes: []metadata.Node{md}}
+	// metadata definitions in an order that is not the order of their IDs: an
+	// explicit high ID first, an unnumbered one, an explicit low ID (whatever
+	// the printer sorts, merges or normalises on its way is shared state)
+	md5 := &metadata.Tuple{MetadataID: 5}
+	md := &metadata.Tuple{MetadataID: -1, Fields: []metadata.Field{md5}}
+	md2 := &metadata.Tuple{MetadataID: 2, Fields: []metadata.Field{md}}
+	m.MetadataDefs = append(m.MetadataDefs, md5, md, md2)
+	m.NamedMetadataDefs["n"] = &metadata.NamedDef{Name: "n", Nodes: []metadata.Node{md, md2}}
+	m.NamedMetadataDefs["a"] = &metadata.NamedDef{Name: "a", Nodes: []metadata.Node{md5}}
+	late.AddrSpace = 4
+	lf.AddrSpace = 2
 	if vfTier() > 0 {
 		m.NewAlias("", m.Globals[0])
 		g := m.NewFunc("", types.Void)
